@@ -52,7 +52,7 @@ FAULT_PROBES = {"first_command_fails": "first_command_fails", "middle_command_fa
 INTERP_VARIANTS = [{"flags": ["-O"], "runs": {"quick": 64, "thorough": 800}, "what": "python -O (assert statements stripped from the code under test)"}]
 PROBES = ["all_commands_succeed", "first_command_fails", "middle_command_fails", "last_command_fails", "death_by_signal", "return_file_missing",
           "all_return_files_missing", "return_file_is_input_file", "binary_input_file", "unnamed_command", "no_return_files_requested",
-          "runner_killed_mid_command", "driver_second_instance_used_after_first", "driver_job_level_override", "driver_subclass_instance", "driver_created_used_dropped", "driver_class_level_envars", "two_jobs_same_jid_overlap", "driver_found_through_PATH", "driver_vectorised_job", "same_program_names_on_the_runners_PATH", "command_cannot_be_started", "driver_job_looked_at_through_the_class", "longer_files_of_an_earlier_run_in_place",
+          "runner_killed_mid_command", "driver_second_instance_used_after_first", "driver_job_level_override", "driver_subclass_instance", "driver_created_used_dropped", "driver_class_level_envars", "two_jobs_same_jid_overlap", "driver_found_through_PATH", "driver_vectorised_job", "same_program_names_on_the_runners_PATH", "command_cannot_be_started", "driver_job_looked_at_through_the_class", "longer_files_of_an_earlier_run_in_place", "directories_given_as_relative_paths",
           "two_runners_create_the_directories_together"]
 
 FAIL_KINDS = [("rc", 1), ("rc", 2), ("rc", 255), ("sig", -11), ("nostart", None)]
@@ -105,6 +105,7 @@ def gen_plan(r, tier, index):
         # some produced return files are empty: an existing file of 0 bytes exists
         "empty_returns": r.random() < 0.3,
         "stale_files": r.random() < 0.3,
+        "relative_dirs": r.random() < 0.3,
         "drivers": {
             "job_level": r.choice([{}, {}, {"executable": "jobexe"}, {"nprocs": 3}, {"envars": {"JOBVAR": "J"}}]),
             "class_envars": r.choice([None, None, {"CLSVAR": "c"}, {"CLSVAR": "c", "SHARED": "from-class"}]),
@@ -244,7 +245,12 @@ def _exec_one(plan, fail, missing, kill_at, root, res, sigctx, twin=False):
         ambient = dict(os.environ)
         with pipeline_seams(fe, sp, runner_path=runner_path):
             cwd0 = os.getcwd()
-            proc = sp(["_molli_run", inp, "-o", outdir, "-s", scratch], cwd=work, capture_output=True, encoding="utf8")
+            o_arg, s_arg = outdir, scratch
+            if plan.get("relative_dirs") and not fresh_dirs:
+                # the directories are given relative to the directory the runner is started in
+                o_arg, s_arg = os.path.relpath(outdir, work), os.path.relpath(scratch, work)
+                res.stats["probe:directories_given_as_relative_paths"] += 1
+            proc = sp(["_molli_run", inp, "-o", o_arg, "-s", s_arg], cwd=work, capture_output=True, encoding="utf8")
             if os.getcwd() != cwd0:
                 raise HarnessError("SimSpawn did not restore the cwd")
     finally:
@@ -463,6 +469,20 @@ def _drivers(plan, res):
             if dict(ji.envars or {}) != want_env:
                 res.violate("driver-settings", "C17|driver-settings|field=envars",
                             f"instance #{di} ({s}) used at position {pos} of sequence {seq}: envars {ji.envars!r}, expected {want_env!r}")
+                return
+            # what a caller does with the objects it was handed (adding a variable for this one job, say) stays with those
+            # objects: neither the driver nor later jobs built through it may notice
+            bound_ = d.calc
+            if isinstance(getattr(bound_, "envars", None), dict):
+                bound_.envars["ONLY_FOR_THIS_JOB"] = f"{di}.{pos}"
+            if isinstance(ji.envars, dict):
+                ji.envars["ALSO_ONLY_FOR_THIS_JOB"] = "1"
+            leaked = [n_ for n_ in ("ONLY_FOR_THIS_JOB", "ALSO_ONLY_FOR_THIS_JOB")
+                      if n_ in (d.envars or {}) or n_ in (getattr(type(d), "envars", None) or {}) or n_ in (d.calc.envars or {})]
+            if leaked:
+                res.violate("driver-settings", "C17|driver-settings|callers-change-leaks-into-the-driver",
+                            f"instance #{di} ({s}) at position {pos} of sequence {seq}: variables {leaked} that a caller added to the bound job / "
+                            f"the JobInput it was handed now belong to the driver (envars {d.envars!r}) or to the next bound job")
                 return
             if pos % 2:
                 vin = list(d.calc_vec.prepare([f"item{di}", f"item{di}"], flag=flag))
